@@ -314,19 +314,26 @@ func (c *ClientConn) Receive(reader io.Reader) error {
 // If an unprepared error is encountered it attempts to prepare the query on the connection and re-execute the original
 // request.
 func (c *ClientConn) maybePrepareAndExecute(request Request, raw *frame.RawFrame) bool {
-	code, err := readInt(raw.Body)
+	// The error code is only at the start of the body if the body is not compressed and is not preceded by a tracing ID,
+	// custom payload or warnings. In that (common) case avoid decoding errors other than unprepared.
+	if raw.Header.Flags == 0 {
+		code, err := readInt(raw.Body)
+		if err != nil {
+			c.logger.Error("failed to read `code` in error response", zap.Error(err))
+			return false
+		}
+		if primitive.ErrorCode(code) != primitive.ErrorCodeUnprepared {
+			return false
+		}
+	}
+
+	frm, err := c.codec.ConvertFromRawFrame(raw)
 	if err != nil {
-		c.logger.Error("failed to read `code` in error response", zap.Error(err))
+		c.logger.Error("failed to decode error response", zap.Error(err))
 		return false
 	}
 
-	if primitive.ErrorCode(code) == primitive.ErrorCodeUnprepared {
-		frm, err := c.codec.ConvertFromRawFrame(raw)
-		if err != nil {
-			c.logger.Error("failed to decode unprepared error response", zap.Error(err))
-			return false
-		}
-		msg := frm.Body.Message.(*message.Unprepared)
+	if msg, ok := frm.Body.Message.(*message.Unprepared); ok {
 		id := hex.EncodeToString(msg.Id)
 		if prepare, ok := c.preparedCache.Load(id); ok {
 			err = c.Send(&prepareRequest{
